@@ -30,6 +30,12 @@ impl Chitchat {
         self.gc_keys_marked_for_deletion()
     }
 
+    /// Per tracked node: (interval samples in the detector window, their sum in seconds, seconds
+    /// since the last reported heartbeat).
+    pub fn verif_fd_windows(&self) -> Vec<(crate::ChitchatId, usize, f64, Option<f64>)> {
+        self.failure_detector.verif_windows()
+    }
+
     /// Serialized delta this node would compute for the given serialized peer digest under the
     /// given byte budget, with the node's current scheduled-for-deletion set.
     pub fn verif_compute_delta(&self, digest_bytes: &[u8], mtu: usize) -> anyhow::Result<Vec<u8>> {
